@@ -79,6 +79,7 @@ structure MSt where
   wr : Nat → Writer
   dr : Drainer := {}
   written : List (Nat × Nat) := []  -- ghost: (sequence, writer)
+  allClaims : List (Nat × Nat × Nat) := []   -- ghost: (lo, hi, requested count) of every successful claim, in CAS order
 
 inductive MTid
   | writer (i : Nat)
@@ -116,6 +117,7 @@ def stepWriter (x : MSt) (i : Nat) : MSt :=
   | .casHw =>
       if x.hw = w.hwSeen then
         { x with hw := w.hwSeen + w.count,
+                 allClaims := x.allClaims ++ [(w.hwSeen + 1, w.hwSeen + w.count, w.count)],
                  wr := updW x.wr i { w with lo := w.hwSeen + 1, hi := w.hwSeen + w.count, w := w.hwSeen + 1, pc := .write,
                                             claims := w.claims ++ [(w.hwSeen + 1, w.hwSeen + w.count, w.count)] } }
       else setW { w with pc := .readHw }
